@@ -13,6 +13,7 @@ import (
 	"sort"
 	"strings"
 	"sync"
+	"sync/atomic"
 
 	"github.com/zerx-lab/wordZero/pkg/document"
 
@@ -319,8 +320,11 @@ func C07Child(args []string) {
 }
 
 // c07Concurrent runs every script in its own goroutine, released together, with yields at the library's hook points.
+// what the concurrency monitor saw of the schedule (atomics: the monitor must not become the race it looks for)
+var c07InFlight, c07Calls, c07Overlapped, c07HookYields int64
+
 func c07Concurrent(specs []c07Spec, workDir, tag string) []*scriptOutcome {
-	document.VerifSetCallback(func(string) { runtime.Gosched() })
+	document.VerifSetCallback(func(string) { atomic.AddInt64(&c07HookYields, 1); runtime.Gosched() })
 	defer document.VerifSetCallback(nil)
 	got := make([]*scriptOutcome, len(specs))
 	shared := filepath.Join(workDir, tag+"-shared") // all documents of the group are saved into one directory
@@ -337,7 +341,12 @@ func c07Concurrent(specs []c07Spec, workDir, tag string) []*scriptOutcome {
 			s := sp.start(workDir, fmt.Sprintf("%s-g%d", tag, i))
 			out := &scriptOutcome{}
 			for k := 0; k < sp.N; k++ {
+				atomic.AddInt64(&c07Calls, 1)
+				if atomic.AddInt64(&c07InFlight, 1) > 1 {
+					atomic.AddInt64(&c07Overlapped, 1) // this call starts while a call on another document is in progress
+				}
 				sp.step(s, k, shared, i, out)
+				atomic.AddInt64(&c07InFlight, -1)
 				runtime.Gosched()
 			}
 			got[i] = sp.finish(s, out)
@@ -472,6 +481,9 @@ func c07Case(c *core.Ctx) *core.Result {
 		res.Count("interleaved_groups", 1)
 	case "concurrent": // every script in its own goroutine, released together
 		got := c07Concurrent(specs, c.WorkDir, fmt.Sprintf("c%d", c.Case))
+		res.Count("concurrent_calls", atomic.SwapInt64(&c07Calls, 0))
+		res.Count("concurrent_calls_started_while_another_document_was_in_a_call", atomic.SwapInt64(&c07Overlapped, 0))
+		res.Count("yields_at_library_hook_points", atomic.SwapInt64(&c07HookYields, 0))
 		for i, sp := range specs {
 			c07Compare(res, base[i], got[i], mode+c07Sib(siblings), sp.Plain, note(i))
 		}
